@@ -190,7 +190,7 @@ fn run(prop: &str, tier: Tier, replay: Option<String>) -> i32 {
             tier,
             bounds,
             wall_cap: Duration::from_secs(if tier == Tier::Quick { 45 } else { 1200 }),
-            rule: "every execution of the real tarpc code (client dispatch + callers, or server channel + request stream + gated handlers) under the harness-owned scheduler/transport/clock, for every listed configuration, with at most `bound_completed` deviations from the canonical schedule; distinct_nontrivial counts distinct trace hashes among executions in which the property's antecedent occurred".into(),
+            rule: format!("every execution of the real tarpc code (client dispatch + callers, server channel + request stream + gated handlers, or a chain of both) under the harness-owned scheduler/transport/clock, for every listed configuration, with at most `bound_completed` deviations from the canonical schedule (a deviation = any choice other than the first option at a choice point: polling another woken task first, an unowed/duplicate/unknown peer message, an abandonment, a drop, a drain, a clock step, parking inside a drop). distinct_nontrivial counts distinct trace hashes among executions in which the property's antecedent occurred: {}", nontrivial_rule(prop)),
             assumptions: vec![
                 "tokio mpsc/oneshot, futures Abortable and tokio-util DelayQueue internals are trusted".into(),
                 "a completed dispatch future is dropped (as tokio::spawn/join!/select! do)".into(),
@@ -321,4 +321,22 @@ fn explore_one(prop: &str, path: &str, bound: u32) -> i32 {
         }
     }
     0
+}
+
+fn nontrivial_rule(prop: &str) -> &'static str {
+    match prop {
+        "C01" => "a stray (unknown/duplicate/late) reply was sent, or replies arrived out of id order, or at least two calls resolved",
+        "C02" => "some task returned Pending and was polled again later (a real wait and wake-up happened)",
+        "C03" => "a call was abandoned unresolved after its request had been transmitted, or a park inside the guard's drop was taken",
+        "C04" => "a Cancel was read while its handler was started and unanswered; a stray cancel was sent; (chain) the head call was abandoned with a handler unfinished down the chain",
+        "C05" => "a call ended with DeadlineExceeded, or a dispatch poll ran past a transmitted call's deadline",
+        "C06" => "a handler was dropped by expiry, or a channel poll ran past a started handler's deadline, or a response was written at/after a deadline",
+        "C08" => "a duplicate of an in-flight id was read, or at least two requests were read",
+        "C10" => "the dispatch ended because the peer closed or the last handle was dropped; (server) the request stream ended",
+        "C11" => "at least two requests were transmitted (client) / read (server)",
+        "C12" => "a request was refused",
+        "C14" => "the transport answered Pending at least once (poll_ready or poll_flush)",
+        "C18" => "a Cancel was transmitted, or at least two requests were transmitted, or a request crossed a second hop",
+        _ => "see DESIGN.md §5",
+    }
 }
